@@ -39,10 +39,10 @@ type Graph struct {
 	Root Val   `json:"root"`
 }
 
-func vBytes(b []byte) Val   { return Val{K: "bytes", B: hx.Hex(b)} }
-func vBool(b bool) Val      { return Val{K: "bool", Bool: b} }
-func vInt(z int64) Val      { return Val{K: "int", Z: fmt.Sprint(z)} }
-func vBig(z *big.Int) Val   { return Val{K: "big", Z: z.String()} }
+func vBytes(b []byte) Val      { return Val{K: "bytes", B: hx.Hex(b)} }
+func vBool(b bool) Val         { return Val{K: "bool", Bool: b} }
+func vInt(z int64) Val         { return Val{K: "int", Z: fmt.Sprint(z)} }
+func vBig(z *big.Int) Val      { return Val{K: "big", Z: z.String()} }
 func vRef(k string, a int) Val { return Val{K: k, Addr: a} }
 
 func (v Val) isRef() bool { return v.K == "arr" || v.K == "struct" || v.K == "map" }
